@@ -551,7 +551,7 @@ def run(chk, cid, prog, units, cfgname, exempt=()):
         base = u.rel.split('/')[-1]
         if base not in units:
             continue
-        pre, name = ('ilu_', base[5:]) if base.startswith('ilu_d') else (('sp_', base[4:]) if base.startswith('sp_d') else ('', base[1:]))
+        pre, name = ('ilu_', base[5:]) if base.startswith('ilu_d') else (('sp_', base[4:]) if base.startswith('sp_d') else (('c_fortran_', base[11:]) if base.startswith('c_fortran_d') else ('', base[1:])))
         zrel = u.rel[:-len(base)] + pre + 'z' + name
         zu = next((x for x in prog.units if x.rel == zrel), None)
         if zu is None:
@@ -564,7 +564,7 @@ def run(chk, cid, prog, units, cfgname, exempt=()):
                 continue
             if (f.name in exempt) or (g.name in exempt):
                 continue
-            bare = re.sub(r'^(ilu_|sp_)?Q', r'\1', key)
+            bare = re.sub(r'^(ilu_|sp_|c_fortran_)?Q', r'\1', key)
             if bare in EXEMPT:
                 chk.ok(cid, '%s~%s' % (f.name, g.name), nontrivial=False, sample='not compared: ' + EXEMPT[bare])
                 continue
